@@ -379,6 +379,58 @@ def ob_eval_dtype(et):
     return Verdict(DISCHARGED, backend="native", sub=n)
 
 
+def _replay_point_accessor(name):
+    try:
+        import contextlib, io
+        from EasyFEA import ElemType
+        from EasyFEA.Geoms import Domain, Point
+        with contextlib.redirect_stdout(io.StringIO()):
+            mesh = Domain(Point(), Point(1, 1), 0.5).Mesh_2D([], ElemType.TRI3)
+        g0 = mesh.Get_list_groupElem(0)[0]
+        try:
+            r = getattr(g0, name)("mass")
+            return dict(confirmed=r is not None, returned=repr(r)[:60])
+        except Exception as ex:
+            return dict(confirmed=True, raised=repr(ex)[:120])
+    except Exception as ex:
+        return dict(confirmed=False, error=repr(ex)[:120])
+
+
+def ob_accessor_contract(name, table):
+    """the accessor, checked against the CONTRACT of its callee (modular step): Get_<x>_pg(matrixType) returns _Eval_Functions(self._<x>(), Get_gauss(matrixType).coord) -- the table
+    of that derivative order, the points of that matrix type, nothing else -- and None for a 0-dimensional group.  With C06._Eval_Functions.loops (all bounds) and the table
+    obligations this gives: Get_<x>_pg[p, f, n] == table[n, f](xi_p) for every element type, matrix type and point count."""
+    from vt import sx
+    fn = extract.get(common.GROUP_PATH, f"_GroupElem.{name}")
+    calls = []
+    T, G, R = object(), object(), object()
+
+    class _Stub:
+        @staticmethod
+        def _Eval_Functions(functions, gaussPoints):
+            calls.append((functions, gaussPoints))
+            return R
+    g = sx.module_globals("EasyFEA.FEM._group_elem", _GroupElem=_Stub)
+    f = extract.compile_fn(fn, g, exact=False)
+    asked = []
+    others = {t: (lambda t=t: (_ for _ in ()).throw(Refuted(f"{name} reads the table {t} instead of {table}", signature=f"accessor:{name}:table"))) for t in ("_N", "_dN", "_ddN", "_dddN", "_ddddN") if t != table}
+    me = sx.Mock("self", dim=2, elemType="TRI3", Get_gauss=lambda mt: (asked.append(mt), sx.Mock("gauss", coord=G))[1], **{table: (lambda: T)}, **others)
+    got = f(me, "some matrix type")
+    if got is not R or calls != [(T, G)] or asked != ["some matrix type"]:
+        raise Refuted(f"{name}: returns {'the evaluated table' if got is R else 'something else'}; _Eval_Functions called {len(calls)} time(s) "
+                      f"{'with the table and the points' if calls == [(T, G)] else 'with other arguments'}; Get_gauss asked for {asked}", signature=f"accessor:{name}:contract", replay=dict(confirmed=False))
+    me0 = sx.Mock("self", dim=0, elemType="POINT", Get_gauss=lambda mt: sx.Mock("gauss", coord=G),
+                  **{t: (lambda: (_ for _ in ()).throw(NotImplementedError("Element POINT not implemented."))) for t in ("_N", "_dN", "_ddN", "_dddN", "_ddddN")})
+    try:
+        r0 = f(me0, "rigi")
+    except NotImplementedError as ex:
+        raise Refuted(f"{name} of a 0-dimensional (POINT) group raises NotImplementedError where the other accessors return None: its guard does not test the dimension", cex=dict(accessor=name, elemType="POINT"),
+                      signature=f"accessor:{name}:dim0", replay=_replay_point_accessor(name))
+    if r0 is not None:
+        raise Refuted(f"{name} of a 0-dimensional group is not None", signature=f"accessor:{name}:dim0", replay=dict(confirmed=False))
+    return Verdict(DISCHARGED, backend="extracted accessor on a recording receiver, callee by contract", sub=4)
+
+
 def ob_accessors(et):
     """the public accessors serve the tables: Get_N_pg, Get_dN_pg, Get_ddN_pg, Get_dddN_pg, Get_ddddN_pg (matrixType) == the tabulated functions _N ... _ddddN
     evaluated at the integration points of that matrix type -- for every derivative order, whether or not the derivative vanishes for this element."""
@@ -436,6 +488,9 @@ def build(tier, seed):
                           clause=f"{HTABLES[k]} == d/dr {HTABLES[k-1]} (sum |coef| of the difference <= 1e-11)"))
         for t in HTABLES:
             funcs[f"{et}.{t}"] = extract.get(bpath, f"{et}.{t}").describe()
+    for name, table in (("Get_N_pg", "_N"), ("Get_dN_pg", "_dN"), ("Get_ddN_pg", "_ddN"), ("Get_dddN_pg", "_dddN"), ("Get_ddddN_pg", "_ddddN")):
+        obs.append(Ob(f"C06.accessor.contract.{name}", ob_accessor_contract, (name, table), "P", (f"{common.GROUP_PATH}::_GroupElem.{name}", f"{common.GROUP_PATH}::_GroupElem._Eval_Functions"),
+                      clause=f"{name}(matrixType) == _Eval_Functions({table}(), Get_gauss(matrixType).coord) (callee by its contract); None for dim 0"))
     obs.append(Ob("C06._Eval_Functions.loops", ob_eval_functions_loops, (), "P", (f"{common.GROUP_PATH}::_GroupElem._Eval_Functions",),
                   clause="forall nPg, nF, nPe: out[p, f, n] == functions[n, f](*gaussPoints[p]) for every index within the bounds, shape (nPg, nF, nPe): loop contract, 8 verification conditions"))
     obs.append(Ob("canary.eval.loops", ob_eval_functions_loops, (True,), "P", expect=REFUTED))
